@@ -277,6 +277,11 @@ def main(argv=None):
         os.makedirs(os.path.join(HERE, "evidence"), exist_ok=True)
         with open(os.path.join(HERE, "evidence", f"{pid}.json"), "w") as f:
             json.dump(ev, f, indent=1, default=repr)
+        if a.tier == "thorough":
+            # the quick command rewrites <id>.json on every change; the last thorough run is kept beside it
+            os.makedirs(os.path.join(HERE, "evidence", "thorough"), exist_ok=True)
+            with open(os.path.join(HERE, "evidence", "thorough", f"{pid}.json"), "w") as f:
+                json.dump(ev, f, indent=1, default=repr)
 
     for ln in known_lines:
         print(ln)
